@@ -314,4 +314,43 @@ MixSolve(k, w, em, eden, x) ==
   IN [x |-> x, zero |-> tot = 0, mech |-> mech,
       lik |-> RatPair(tot, wsum * ed),
       subsets |-> {one(S) : S \in subs}]
+
+(* ------------------------------------------- PARAMETER CHANGES ON ONE OBJECT *)
+(* An inference call has no memory: its result is the enumeration for the   *)
+(* parameters CURRENT at the moment of the call, whatever was called before.*)
+(* Parameters of an HMM object: cur = [pi, tr, start, final] (integer       *)
+(* weights as above).  Reading of the mutators (statistics/generic/hmm.go): *)
+(*  SetStartStates(S)  Pi := the current Pi restricted to S, renormalised   *)
+(*                     (cumulative: a state excluded earlier stays          *)
+(*                     excluded), the start set becomes S;                  *)
+(*  SetFinalStates(F)  Tf := Tr restricted to F, renormalised row by row    *)
+(*                     (always from the full Tr, not cumulative);           *)
+(*  SetParameters(p)   Pi, Tr := the given (normalised, log) values; the    *)
+(*                     start/final sets stay, Tf is re-derived from the new *)
+(*                     Tr.  Only parameter vectors whose Pi has no mass     *)
+(*                     outside the current start set are generated: what    *)
+(*                     happens to such mass is not promised;                *)
+(*  Clone()            a copy with the same parameters and restrictions.    *)
+(* A mixture object: cur = [w, em]; SetParameters replaces the normalised   *)
+(* log-weights (and, for the wrappers, the emission parameters).            *)
+HmmModel(m, smap, em, eden, cur) ==
+  [m |-> m, pi |-> cur.pi, tr |-> cur.tr, smap |-> smap, em |-> em, eden |-> eden,
+   start |-> cur.start, final |-> cur.final]
+
+ApplyStart(m, cur, S) ==
+  LET old == IF cur.start = {} THEN 1..m ELSE cur.start
+  IN [cur EXCEPT !.pi = Tup([i \in 1..m |-> IF i \in S /\ i \in old THEN cur.pi[i] ELSE 0], m), !.start = S]
+ApplyFinal(cur, F) == [cur EXCEPT !.final = F]
+ApplySet(cur, pi2, tr2) == [cur EXCEPT !.pi = pi2, !.tr = tr2]
+(* SetParameters is generated only with an initial vector supported inside the start set *)
+SetAdmissible(m, cur, pi2) == \A i \in 1..m : (cur.start # {} /\ i \notin cur.start) => pi2[i] = 0
+ValidCur(m, cur) ==
+  ValidModel([m |-> m, pi |-> cur.pi, tr |-> cur.tr, start |-> cur.start, final |-> cur.final])
+
+(* result of the three mixture calls for the observation x and the component list S *)
+MixCall(k, w, em, eden, x, S) ==
+  LET r == MixSolve(k, w, em, eden, x)
+      e == CHOOSE y \in r.subsets : y.s = S
+  IN [x |-> x, s |-> S, zero |-> r.zero, lik |-> r.lik, postdef |-> e.postdef, post |-> e.post,
+      likdef |-> e.likdef, slik |-> e.lik, mech |-> r.mech]
 =============================================================================
